@@ -176,6 +176,42 @@ func generate(w *mon.W) {
 			}
 		}
 		p, _ := g.Pipe("T", seq, 0)
+		if i%5 == 1 && len(p.Ops) > 0 {
+			// write one operator twice, the second time with one detail changed
+			// (a direction, a null placement, a count): the second one governs
+			k := rng.Intn(len(p.Ops))
+			cp := *p.Ops[k]
+			ok := true
+			switch cp.K {
+			case "sort", "top":
+				cp.Terms = append([]SortTerm{}, cp.Terms...)
+				t := &cp.Terms[rng.Intn(len(cp.Terms))]
+				switch rng.Intn(3) {
+				case 0:
+					t.Nulls = map[string]string{"": "first", "first": "last", "last": "first"}[t.Nulls]
+					if t.Dir == "asc" && t.Nulls == "first" {
+						t.Nulls = "last"
+					}
+				case 1:
+					t.Dir = map[string]string{"": "asc", "asc": "desc", "desc": "asc"}[t.Dir]
+				default:
+					if cp.K == "top" {
+						cp.X = Num([]string{"0", "1", "2", "5"}[rng.Intn(4)])
+					} else {
+						t.Nulls = map[string]string{"": "last", "first": "", "last": ""}[t.Nulls]
+					}
+				}
+			case "take":
+				cp.X = Num([]string{"0", "1", "2", "3", "100"}[rng.Intn(5)])
+			case "where":
+				cp.X = Call("not", cp.X)
+			default:
+				ok = false
+			}
+			if ok {
+				p.Ops = append(p.Ops[:k+1:k+1], append([]*Op{&cp}, p.Ops[k+1:]...)...)
+			}
+		}
 		if i%5 == 0 && len(p.Ops) > 0 {
 			// write one operator twice, verbatim, where that is well-formed
 			k := rng.Intn(len(p.Ops))
